@@ -1,82 +1,128 @@
 (* C20 Data channel readyState only moves forward and events fire at most
-   once.  Statements only; proofs live in Proofs/ReadyState.v.
+   once.  Statements only; proofs live in Proofs/ReadyState*.v.
 
-   Full statement (property text): on every schedule of handleOpen, Close,
-   remote close, readLoop exit and PeerConnection.Close,
-       monotone s = true
-       /\ (Close has returned /\ the transport is gone -> eventually rs s = Closed).
-   It is refuted by the c20_monotone_refuted_* / c20_closed_refuted witnesses;
-   c20_monotone_partial is what holds when the two check-then-set windows are
-   not interleaved and handleOpen does not run after PeerConnection.Close. *)
+   The model (Model/ReadyState.v) covers handleOpen, any number of Close and
+   GracefulClose calls, the remote close, the read loop's exit,
+   PeerConnection.Close, OnOpen / OnClose registrations before, during and
+   after the events (each "go once.Do(handler)" goroutine is a thread of its
+   own), Detach and Send.  [post] is the code after the two repairs
+   (readyState only moves forward / closed while opening ends in closed; one
+   Once per registration); the defects they removed are kept as Examples on
+   [pre].  Every theorem quantifies over ALL schedules [sch] and all
+   configurations [c] (number and kind of Close calls, number of
+   registrations, handlers registered beforehand or not, detach setting)
+   unless a premise says otherwise. *)
 From Coq Require Import List Arith.
 Import ListNotations.
-From Verif Require Import Model.ReadyState Proofs.ReadyState.
+From Verif Require Import Model.ReadyState Proofs.ReadyState Proofs.ReadyStateInv Proofs.ReadyStateWit.
 
-(* Close passes its "!= closed" check, PeerConnection.Close stores closed,
-   Close stores closing: closed -> closing, and it stays closing *)
-Theorem c20_monotone_refuted_close_window :
-  exists nclose sch,
-    let s := run (init nclose) sch in
-    monotone s = false /\ hist s = [Closed; Closing] /\ rs s = Closing /\ pc_done s = true.
-Proof. exact refuted_close_window_ex. Qed.
-Print Assumptions c20_monotone_refuted_close_window.
+(* readyState only moves forward along connecting -> open -> closing -> closed *)
+Theorem c20_monotone : forall c sch, monotone (run post c (init c) sch) = true.
+Proof. exact monotone_full. Qed.
+Print Assumptions c20_monotone.
 
-(* handleOpen passes its isGracefulClosed check, Close runs completely
-   (closing), handleOpen stores open: closing -> open, no read loop is started *)
-Theorem c20_monotone_refuted_open_window :
-  exists nclose sch,
-    let s := run (init nclose) sch in
-    monotone s = false /\ hist s = [Closing; Open] /\ rs s = Open /\ rl_started s = false.
-Proof. exact refuted_open_window_ex. Qed.
-Print Assumptions c20_monotone_refuted_open_window.
+(* closed is final *)
+Theorem c20_closed_is_final : forall c sch1 sch2,
+  rs (run post c (init c) sch1) = Closed -> rs (run post c (init c) (sch1 ++ sch2)) = Closed.
+Proof. exact closed_is_final. Qed.
+Print Assumptions c20_closed_is_final.
 
-(* the same window against PeerConnection.Close: closed -> open *)
-Theorem c20_monotone_refuted_open_after_pcclose :
-  exists sch, let s := run (init 0) sch in monotone s = false /\ hist s = [Closed; Open].
-Proof. exact refuted_open_after_pcclose_ex. Qed.
-Print Assumptions c20_monotone_refuted_open_after_pcclose.
+(* Once the transport is gone and the channel's own threads have come to rest
+   (handleOpen returned, no Close call under way, the read loop has nothing
+   left to do) readyState is closed -- whether or not Close was called, and
+   without PeerConnection.Close.  Channels of a detach-enabled API have no read
+   loop and are excluded (c20_closed_detached_refuted). *)
+Theorem c20_closed : forall c sch,
+  detach c = false ->
+  let s := run post c (init c) sch in
+  gone s = true -> at_rest post s = true -> rs s = Closed.
+Proof. exact closed_at_rest. Qed.
+Print Assumptions c20_closed.
 
-(* no race needed: Close while connecting, then the channel opens (OnClose
-   fires), then the transport goes: every thread has finished, readyState is
-   still closing *)
-Theorem c20_closed_refuted :
-  exists sch,
-    let s := run (init 1) sch in
-    closers s = [CDone] /\ o_pc s = ODone /\ gone s = true /\ step s 3 = None /\
-    close_calls s = 1 /\ rs s = Closing.
-Proof. exact refuted_never_closed_ex. Qed.
-Print Assumptions c20_closed_refuted.
+(* as soon as PeerConnection.Close or the read loop's exit path has run it is closed *)
+Theorem c20_closed_after_teardown : forall c sch,
+  detach c = false ->
+  let s := run post c (init c) sch in
+  pc_done s = true \/ rl_pc s <> RRun -> rs s = Closed.
+Proof. exact closed_after_teardown. Qed.
+Print Assumptions c20_closed_after_teardown.
 
-(* with the two check-then-set windows atomic and handleOpen not after
-   PeerConnection.Close (runA), on EVERY schedule and any number of Close
-   calls: readyState only moves forward, and once PeerConnection.Close or the
-   read loop's exit has run it is closed and stays closed *)
-Theorem c20_monotone_partial : forall nclose sch,
-  let s := runA (init nclose) sch in
-  monotone s = true /\ (pc_done s = true \/ rl_done s = true -> rs s = Closed).
-Proof. exact monotone_partial. Qed.
-Print Assumptions c20_monotone_partial.
+(* detached channels: Close, transport gone, everything at rest: still closing;
+   and after Detach() not even PeerConnection.Close stores closed *)
+Theorem c20_closed_detached_refuted :
+  (exists c sch, let s := run post c (init c) sch in
+     detach c = true /\ at_rest post s = true /\ gone s = true /\ rs s = Closing) /\
+  (exists c sch, let s := run post c (init c) sch in
+     detach c = true /\ at_rest post s = true /\ pc_done s = true /\ rs s = Closing).
+Proof.
+  split.
+  - exists cfg_det, sch_detached. cbv zeta.
+    destruct post_detached_stays_closing as (H1 & H2 & H3 & _). repeat split; assumption.
+  - exists cfg_det, sch_detached_pc. cbv zeta.
+    destruct post_detached_after_pcclose as (H1 & H2 & H3). repeat split; assumption.
+Qed.
+Print Assumptions c20_closed_detached_refuted.
 
-(* the guarded runs are runs of the faithful model (each atomic window is two
-   consecutive blocks of the same thread) *)
-Theorem c20_guarded_runs_are_runs : forall sch s, exists sch', runA s sch = run s sch'.
-Proof. exact runA_is_run. Qed.
-Print Assumptions c20_guarded_runs_are_runs.
-
-(* OnOpen / OnClose handlers run at most once per registration, every schedule
-   of the faithful model *)
-Theorem c20_once : forall nclose sch,
-  open_calls (run (init nclose) sch) <= 1 /\ close_calls (run (init nclose) sch) <= 1.
+(* the handler of every OnOpen / OnClose registration runs at most once,
+   however registrations, events and the handler goroutines interleave *)
+Theorem c20_once : forall c sch k,
+  let s := run post c (init c) sch in
+  calls (evo s) k <= 1 /\ calls (evc s) k <= 1.
 Proof. exact handlers_at_most_once. Qed.
 Print Assumptions c20_once.
 
-(* Send on a channel that is not open returns an error *)
+(* Send / SendText on a channel that is not open returns an error, in every state *)
 Theorem c20_send_closed_errors : forall s, rs s <> Open -> send s = SendClosedPipe.
 Proof. exact send_not_open. Qed.
 Print Assumptions c20_send_closed_errors.
 
-(* the guarded model is not vacuous: a full life cycle *)
-Example c20_partial_nontrivial :
-  let s := runA (init 1) [0; 4; 4; 2; 3] in
-  hist s = [Open; Closing; Closed] /\ open_calls s = 1 /\ close_calls s = 1 /\ rl_done s = true.
+(* and in state open d.dataChannel is set: Send never dereferences nil (before
+   and after the repairs) *)
+Theorem c20_send_never_nil : forall v c sch, send (run v c (init c) sch) <> SendNilChannel.
+Proof. exact send_never_nil. Qed.
+Print Assumptions c20_send_never_nil.
+
+(* a GracefulClose call that has returned leaves no read loop running (before
+   and after the repairs) *)
+Theorem c20_graceful_close_waits : forall v c sch j,
+  let s := run v c (init c) sch in
+  nth_error (closers s) j = Some (true, CDone) ->
+  rl_started s = true -> rl_done s = true.
+Proof. exact graceful_close_waits. Qed.
+Print Assumptions c20_graceful_close_waits.
+
+(* ---------- the code before the repairs ---------- *)
+Example c20_pre_close_window :
+  let s := run pre cfg1 (init cfg1) sch_close_window in
+  hist s = [Closed; Closing] /\ monotone s = false /\ rs s = Closing /\ pc_done s = true.
+Proof. exact pre_close_window. Qed.
+Example c20_pre_open_window :
+  let s := run pre cfg1 (init cfg1) sch_open_window in
+  hist s = [Closing; Open] /\ monotone s = false /\ rs s = Open /\ rl_started s = false
+  /\ o_pc s = ODone.
+Proof. exact pre_open_window. Qed.
+Example c20_pre_open_after_pcclose :
+  let s := run pre cfg0 (init cfg0) sch_open_after_pcclose in
+  hist s = [Closed; Open] /\ monotone s = false.
+Proof. exact pre_open_after_pcclose. Qed.
+Example c20_pre_never_closed :
+  let s := run pre cfg1 (init cfg1) sch_never_closed in
+  at_rest pre s = true /\ gone s = true /\ calls (evc s) 0 = 1 /\ rs s = Closing.
+Proof. exact pre_never_closed. Qed.
+Example c20_pre_handler_twice :
+  let s := run pre cfg_reg (init cfg_reg) sch_once_twice in
+  calls (evo s) 1 = 2 /\ calls (evo s) 2 = 0 /\ pend (evo s) = [].
+Proof. exact pre_handler_twice. Qed.
+
+(* ---------- the premises are satisfiable on a full life cycle ---------- *)
+Example c20_nontrivial :
+  let s := run post cfg_life (init cfg_life)
+             [TOpen; TOpen; TOpen; TDoO 0; TClose 0; TClose 0; TClose 0; TRem; TRl; TRl; TDoC 0;
+              TClose 0; TRegC 0; TRegC 0; TDoC 0] in
+  hist s = [Open; Closing; Closed] /\ calls (evo s) 0 = 1 /\ calls (evc s) 0 = 1
+  /\ calls (evc s) 1 = 1 /\ nth_error (closers s) 0 = Some (true, CDone) /\ rl_done s = true.
+Proof. exact post_life_cycle. Qed.
+Example c20_closed_premises_hold :
+  let s := run post cfg1 (init cfg1) sch_never_closed in
+  detach cfg1 = false /\ gone s = true /\ at_rest post s = true /\ rs s = Closed.
 Proof. vm_compute. repeat split; reflexivity. Qed.
